@@ -31,7 +31,14 @@ Proof. exact failure_erasable. Qed.
    each request is either applied or returned, never dropped (both SDKs) *)
 Theorem C15_batch_under_failure_all_unprocessed :
   forall lm s c tn rs,
-    c_failure c = Some FInternal -> v1_name_ok s tn = true -> forallb wreq_ok rs = true -> rs <> [] ->
-    List.length rs <= 25 ->
+    c_failure c = Some FInternal -> rs <> [] ->
     batch_write lm s c [(tn, rs)] = (c, ok_obs (PBatchWrite [(tn, rs)]) []).
 Proof. exact batch_under_failure_all_unprocessed. Qed.
+
+(* ... and so for any number of tables, any requests (well-formed or not) and any size: the client is unchanged and the
+   unprocessed map holds every table entry that has requests, with all of them *)
+Theorem C15_batch_under_failure_general :
+  forall lm s c reqs,
+    c_failure c = Some FInternal ->
+    batch_write lm s c reqs = (c, ok_obs (PBatchWrite (all_unprocessed reqs [])) []).
+Proof. exact batch_under_failure_general. Qed.
